@@ -1,0 +1,37 @@
+//go:build verif
+// +build verif
+
+package massdb_v1
+
+// Verification hooks (see /verif): harness-settable callbacks, compiled only
+// with the "verif" build tag.
+
+var (
+	// VerifCacheOverride decides the size of the plotting cache for the next
+	// window (returns true if it updated the cache itself).
+	VerifCacheOverride func(hm *HashMap, cache *MemCache, requiredMem uint64) bool
+	// VerifPoint is called at named points of the two plotting passes.
+	VerifPoint func(mdb *MassDBV1, name string)
+	// VerifMapABuf scales the bufio window used to read map A in plotWork.
+	VerifMapABuf func(mdb *MassDBV1, n int) int
+)
+
+func verifCacheOverride(hm *HashMap, cache *MemCache, requiredMem uint64) bool {
+	if VerifCacheOverride != nil {
+		return VerifCacheOverride(hm, cache, requiredMem)
+	}
+	return false
+}
+
+func verifPoint(mdb *MassDBV1, name string) {
+	if VerifPoint != nil {
+		VerifPoint(mdb, name)
+	}
+}
+
+func verifMapABuf(mdb *MassDBV1, n int) int {
+	if VerifMapABuf != nil {
+		return VerifMapABuf(mdb, n)
+	}
+	return n
+}
